@@ -1156,6 +1156,17 @@ class Walker:
             args = vals[npre:npre + len(argnodes)]
             kws = dict(zip([k.arg for k in node.keywords], vals[npre + len(argnodes):]))
             # pure string methods on constant receivers fold to constants
+            if isinstance(node.func, ast.Attribute) and node.func.attr in ("encode", "decode") and len(recv) == 1 \
+                    and recv[0].kind == "const" and isinstance(recv[0].value, (str, bytes)) \
+                    and all(a.kind == "const" for a in args) and all(v.kind == "const" for v in kws.values()) \
+                    and set(kws) <= {"encoding", "errors"}:
+                try:
+                    return [("val", Const(getattr(recv[0].value, node.func.attr)(*[a.value for a in args], **{k: v.value for k, v in kws.items()})), s)]
+                except (UnicodeError, LookupError) as exc:
+                    s.add(Event("raise", node, type(exc).__name__, self.frame, "implicit"))
+                    return [("raise", type(exc).__name__, s)]
+                except Exception:
+                    pass
             if isinstance(node.func, ast.Attribute) and node.func.attr in PURE_STR_METHODS and len(recv) == 1 \
                     and recv[0].kind == "const" and isinstance(recv[0].value, (str, bytes)) \
                     and all(a.kind == "const" for a in args) and not kws:
@@ -1385,6 +1396,17 @@ def _binop(op, a, b) -> AVal:
             return Const(a % b)
         if isinstance(op, ast.FloorDiv):
             return Const(a // b)
+        if isinstance(a, int) and isinstance(b, int):
+            if isinstance(op, ast.BitAnd):
+                return Const(a & b)
+            if isinstance(op, ast.BitOr):
+                return Const(a | b)
+            if isinstance(op, ast.BitXor):
+                return Const(a ^ b)
+            if isinstance(op, ast.RShift) and 0 <= b < 64:
+                return Const(a >> b)
+            if isinstance(op, ast.LShift) and 0 <= b < 64:
+                return Const(a << b)
     except Exception:
         pass
     return UNK
